@@ -1613,7 +1613,7 @@ impl<'a> AttrValue<'a> {
 
     fn parse_signed_int(cursor: &mut ReadCursor<'a>, len: u8) -> Result<i32, AttrParseError> {
         match len {
-            1 => Ok(cursor.read_u8()? as i32),
+            1 => Ok(cursor.read_u8()? as i8 as i32),
             2 => Ok(cursor.read_i16_le()? as i32),
             4 => Ok(cursor.read_i32_le()?),
             _ => Err(AttrParseError::BadIntegerLength(len)),
